@@ -43,9 +43,9 @@ for pid in ids:
          "evidence_file": f"/verif/evidence/{pid}.json",
          "replay_cmd_template": "cat {path}",
          "engine": "govc",
-         "level_claimed": {"category": c['category'], "text": c['text'], "design_ref": c['design_ref']},
+         "level_claimed": {"category": c['category'], "text": c['text'] + (" Bounded stand-in on the real code, reported under coverage.bounded and never counted as proved: " + BOUNDED[pid] + "." if pid in BOUNDED else ""), "design_ref": c['design_ref']},
          "level_note": c['note'],
-         "technique": c['technique'],
+         "technique": c['technique'] + ("; bounded stand-in harness (small-scope exhaustive + seeded histories, go test -overlay) for the view-level clauses" if pid in BOUNDED else ""),
         })
     else:
         m["not_applicable"].append({"property_id": pid, "reason": NA.get(pid, "no contract within reach decides this property yet (see DESIGN.md §8)")})
